@@ -359,7 +359,8 @@ def id_echo(facts, R):
         s = Sym(b)
         a0 = s.op(t["args"][0])
         a1 = s.op(t["args"][1])
-        ok = a0[0] == "field" and a0[2] == "id" and a0[1][0] == "field" and a0[1][2] == "header" and a0[1][1][0] == "arg" and a0[1][1][1] == 1
+        ok = a0[0] == "field" and a0[2] == "id" and a0[1][0] == "field" and a0[1][2] == "header" and a0[1][1][0] == "arg" and \
+            (a0[1][1][1] == 1 or "message::Message" in b.local_ty(a0[1][1][1]))      # (the request parameter, wherever it sits: a handler's `req` is arg2)
         okq = a1[0] == "field" and a1[2] == "query_format" and a1[1] == a0[1] if ok else False
         if not ok and a0[0] == "field" and a0[2] == "id" and a0[1][0] == "arg" and b.local_ty(a0[1][1]).lstrip("&").startswith("header::Header"):
             # the constructor is handed the request's header itself: every caller must pass <its request>.header
